@@ -29,6 +29,11 @@ pub struct Case {
     pub steps: Vec<Step>,
     /// run the appends of one step from real threads concurrently
     pub concurrent: bool,
+    /// 0 = local metrics recorder (counter checked); 1 = no recorder at all (the other push
+    /// path); 2 = build::<BoxEntry>; 3 = boxed twice through the blanket EntrySink impl (2 and 3
+    /// without recorder as well)
+    #[serde(default)]
+    pub qkind: u8,
 }
 
 fn overflow_count(rec: &metrics_util_020::debugging::DebuggingRecorder) -> u64 {
@@ -56,12 +61,20 @@ pub fn check(case: &Case) -> CaseResult {
         .flush_interval(Duration::from_millis(1))
         .metric_name("vq")
         .metrics_recorder_local::<dyn metrics_024::Recorder, _>(recorder.clone());
-    let (q, handle) = if case.boxed {
-        let (q, h) = b.build_boxed(stream);
-        (super::c01::Q::Boxed(q), h)
-    } else {
-        let (q, h) = b.build::<TestE>(stream);
-        (super::c01::Q::Typed(q), h)
+    let with_recorder = case.qkind % 4 == 0;
+    let (q, handle) = match case.qkind % 4 {
+        0 => {
+            if case.boxed {
+                let (q, h) = b.build_boxed(stream);
+                (super::c01::Q::Boxed(q), h)
+            } else {
+                let (q, h) = b.build::<TestE>(stream);
+                (super::c01::Q::Typed(q), h)
+            }
+        }
+        1 => super::c01::build_queue(cap, case.boxed, Duration::from_millis(1), stream),
+        2 => super::c01::build_queue_kind(1, cap, case.boxed, Duration::from_millis(1), stream),
+        _ => super::c01::build_queue_kind(2, cap, case.boxed, Duration::from_millis(1), stream),
     };
     let mut seqs = vec![0u32; np];
     let mut total = 0usize;
@@ -305,12 +318,18 @@ pub fn check(case: &Case) -> CaseResult {
     // N4: the overflow counter equals the number of discarded entries
     let counted = overflow_count(&recorder);
     vensure!(
-        counted as usize == lost,
+        !with_recorder || counted as usize == lost,
         "overflow:counter-wrong",
         "metrique_queue_overflows = {counted} but {lost} entries were discarded (appended {total}, delivered {}, capacity {cap})",
         delivered.len()
     );
     let mut classes: Classes = vec![];
+    classes.push(match case.qkind % 4 {
+        0 => "queue-with-recorder",
+        1 => "queue-without-recorder",
+        2 => "queue-of-box-entry",
+        _ => "reboxed-sink-through-blanket-entrysink",
+    });
     if lost > 0 {
         classes.push("loss");
     }
@@ -512,7 +531,7 @@ pub fn run(ctx: &mut Ctx) {
         SubCfg::new("c09-overflow", RULE, if q { 1_200 } else { 30_000 })
             .threads(ctx.tier.pick(4, 8))
             .shrink_iters(150)
-            .mandatory(&["loss", "stalled-writer", "multi-producer", "boxed-queue", "appends-racing-with-writer", "capacity-above-32"]),
+            .mandatory(&["loss", "stalled-writer", "multi-producer", "boxed-queue", "appends-racing-with-writer", "capacity-above-32", "queue-without-recorder", "queue-of-box-entry", "reboxed-sink-through-blanket-entrysink"]),
         || {
             (
                 prop_oneof![3 => 1u8..5, 2 => 5u8..=16, 1 => 30u8..=70],
@@ -527,13 +546,15 @@ pub fn run(ctx: &mut Ctx) {
                     1..14,
                 ),
                 prop::bool::weighted(0.35),
+                prop_oneof![3 => Just(0u8), 2 => 1u8..4],
             )
-                .prop_map(|(capacity, boxed, producers, steps, concurrent)| Case {
+                .prop_map(|(capacity, boxed, producers, steps, concurrent, qkind)| Case {
                     capacity,
                     boxed,
                     producers,
                     steps,
                     concurrent,
+                    qkind,
                 })
         },
         check,
